@@ -278,7 +278,12 @@ class Files:
             self.paths["zst"] = zst_as_written
         else:
             z = d / f"{variant}.json.zst"
-            z.write_bytes(zstandard.ZstdCompressor().compress(data))
+            # two zstd frames back to back (as when the logs of two runs are appended to one file), split at a line boundary
+            cut = data.find(b"\n", len(data) // 2) + 1
+            if 0 < cut < len(data):
+                z.write_bytes(zstandard.ZstdCompressor().compress(data[:cut]) + zstandard.ZstdCompressor().compress(data[cut:]))
+            else:
+                z.write_bytes(zstandard.ZstdCompressor().compress(data))
             self.paths["zst"] = z
         g = d / f"{variant}.json.gz"
         g.write_bytes(gzip.compress(data, mtime=0))
